@@ -745,6 +745,8 @@ class Values:
             return self.comprehension(unit, e, at)
         if isinstance(e, ast.Lambda):
             return V(("closure", f"{unit.fq}.<lambda@{e.lineno}:{e.col_offset}>"))
+        if isinstance(e, ast.BinOp) and isinstance(e.op, ast.Mult) and isinstance(e.left, (ast.List, ast.Tuple)):
+            return self.expr(unit, e.left, at)  # ``[x] * n``: a new list of the very elements of the display
         if isinstance(e, (ast.BinOp, ast.UnaryOp, ast.Compare)):
             subs: List[ast.AST] = []
             if isinstance(e, ast.BinOp):
@@ -935,6 +937,12 @@ class Values:
         if k == "acall":
             return V(("userawait", f[1]))
         if k in ("user", "result", "item", "usermeth", "iter", "siter"):
+            if k == "usermeth" and f[2] in ("items", "values", "keys") and not e.args and not e.keywords:
+                # a mapping of the user (``**kwargs`` handed to a private step): its views range over its own keys / values
+                item = V(("item", str(f[1]) + "[]"))
+                if f[2] == "items":
+                    return V(("elems", ("tuple", (V(("const", "key")), item))))
+                return V(("elems", ("const", "key"))) if f[2] == "keys" else frozenset(("elems", a_) for a_ in item)
             if k == "usermeth" and f[2] == "__aiter__":
                 return V(("iter", f[1]))
             if k == "usermeth" and f[2] in ("__iter__",):
@@ -1034,6 +1042,34 @@ class Values:
             return V(("libsyncgen", qual))
         # synchronous library function: context-insensitive return value
         ret = self.returns(target)
+        if ret and target.node.name.startswith("_") and not target.node.name.startswith("__") and target.parent is None \
+                and not any(isinstance(a_, ast.Starred) for a_ in e.args):
+            # a private helper that hands one of its parameters back (``return lru`` after dressing it up): at this call
+            # that is what was passed for the parameter
+            names = target.param_names()
+            offset = 1 if (bound and target.cls is not None and not target.is_static()) else 0
+            rets_ = [x.value for x in own_nodes(target.node) if isinstance(x, ast.Return)]
+            stored_ = {x.id for x in own_nodes(target.node) if isinstance(x, ast.Name) and isinstance(x.ctx, ast.Store)}
+            if rets_ and all(isinstance(v_, ast.Name) and v_.id in names and v_.id not in stored_ for v_ in rets_):
+                # (every return hands a parameter back as it came in: whatever its annotation says, the value is the argument)
+                direct: Set[Atom] = set()
+                for v_ in rets_:
+                    got = self._arg(unit, e, at, names.index(v_.id) - offset, v_.id) if names.index(v_.id) - offset >= 0 else EMPTY
+                    if not got:
+                        direct = set()
+                        break
+                    direct |= got
+                if direct:
+                    return frozenset(direct)
+            own = {f"{target.short}:{p_}": i_ for i_, p_ in enumerate(names)}
+            out: Set[Atom] = set()
+            for a_ in ret:
+                if a_[0] == "user" and a_[1] in own and own[a_[1]] - offset >= 0:
+                    got = self._arg(unit, e, at, own[a_[1]] - offset, names[own[a_[1]]])
+                    out |= got if got else {a_}
+                else:
+                    out.add(a_)
+            ret = frozenset(out)
         return ret or V(("libret", qual))
 
     def as_async_iter(self, arg: Val) -> Val:
